@@ -486,6 +486,57 @@ def via_new_call(c, x, have, gained_calls):
     return False
 
 
+def _form_of(x):
+    i = x.find(" [")
+    if i < 0:
+        return None
+    try:
+        return json.loads(x[i + 1:])
+    except Exception:
+        return None
+
+
+def _flat(f, out=None):
+    out = set() if out is None else out
+    for y in f:
+        if isinstance(y, (list, tuple)):
+            _flat(y, out)
+        else:
+            out.add(str(y))
+    return out
+
+
+def shrunk_into_helper(x, have, gain_new_cr):
+    """the lost atom `x` has a sibling in `have` with the same head whose form is a strict subset, and every leaf that is missing occurs in an
+    atom of a function of the crate that did not exist in the reference. Forms are flow-insensitive: a value read from `self.f` carries what
+    the function itself assigns to `self.f`; when those assignments move into a helper the reader's form shrinks although nothing changed."""
+    fx = _form_of(x)
+    if not fx:
+        return False
+    sx = _flat(fx)
+    hd = _head(x)
+    pool = None
+    for y in have:
+        if y == x or _head(y) != hd:
+            continue
+        fy = _form_of(y)
+        if fy is None:
+            continue
+        sy = _flat(fy)
+        if not sy < sx:
+            continue
+        if pool is None:
+            pool = set()
+            for atoms_ in gain_new_cr.values():
+                for a in atoms_:
+                    fa = _form_of(a)
+                    if fa:
+                        pool |= _flat(fa)
+        if (sx - sy) <= pool:
+            return True
+    return False
+
+
 def atom_losses(ref, cur, cats, reach=None):
     """`reach(path)`: {directly called workspace function: names reachable from it} of the current function (atoms.callee_reach), or None.
     ref / cur: {function path: {category: [atoms]}}. Returns (lost, gone_missing, gone_ok):
@@ -574,6 +625,8 @@ def atom_losses(ref, cur, cats, reach=None):
                     continue      # the same argument is still passed; its value is opaque to the form analysis now
                 if c in ("arg", "recv", "fld", "set", "dec") and via_new_call(c, x, hv, gained_calls):
                     continue      # the same step / test is still there and its operand now comes out of a function this one did not call before
+                if c in ("arg", "recv", "fld", "set") and shrunk_into_helper(x, hv, gain_new.get(cr, {})):
+                    continue      # the form lost leaves that a NEW function of the crate now has (the statements that fed the value moved into a helper)
                 l.append((c, x))
         if l:
             lost[path] = l
